@@ -96,5 +96,13 @@ func (i instruction) String() string {
 		}
 	}
 
+	if bits := i.instrType.shamtBits; bits > 0 {
+		shamt := (i.value >> 20) & ((uint32(1) << bits) - 1)
+		as = append(as, fmt.Sprintf("%d", shamt))
+	}
+	if i.instrType.hasUimm {
+		as = append(as, fmt.Sprintf("%d", csrImmValue(i)))
+	}
+
 	return fmt.Sprintf("%s %s", i.instrType.name, strings.Join(as, ", "))
 }
